@@ -12,13 +12,162 @@ _UNWIND = [
     (r"c29_lifespan::(remove_stale|time_until|history_fixture)", 4),  # the harness's own constant-bound loops (N <= 3)
 ]
 
-for _pid in ("C30", "C29", "C33", "C27", "C28"):
-    prop(
-        _pid,
-        level="other",
-        explanation="(in progress)", bounds="", outside="", level_text="", level_note="", technique="", assumptions=[],
-        timeout={"quick": 600, "thorough": 900},
-        mem_gb=12,
-        cbmc_args=_CBMC,
-        unwind_patterns=_UNWIND,
-    )
+_DIRECT = ("entities are installed DIRECTLY into the participant's pub entity lists (support_part2.rs) in the state the real "
+           "create_topic / create_user_defined_publisher / create_data_writer (+ enable) calls give them: the real create_data_writer "
+           "does not fit the solver budget (HARNESS_GUIDE) and is not code under test here; the TopicEntity is a struct literal whose "
+           "type_information is a placeholder value (TypeInformation::from(DynamicType) runs MD5 over XTypes-serialized type objects) "
+           "that no function driven here reads")
+_GRID = ("time values range over the grid seconds 0..=7 x nanoseconds {0, 1, 5*10^8, 10^9-1} (every ordering, equality and "
+         "nanosecond carry/borrow; a full-range nanosecond turns the check into the 64-bit divide-by-10^9 equivalence CBMC cannot "
+         "decide - the arithmetic over the full domain is C14's subject)")
+_ENV = ("environment: VRuntime clock returns the symbolic `now`, capturing transport, listener tasks never spawned, "
+        "critical_section::acquire/release are no-ops (sequential execution)")
+
+prop(
+    "C29",
+    ready=True,
+    level="other",
+    explanation=(
+        "dust-dds implements lifespan on the writer side in two places, both executed for real by Kani: (1) "
+        "DataWriterEntity::write_w_timestamp (expired-at-write branch) on a writer entity over a recording RtpsWriter, with symbolic "
+        "source timestamp, clock reading and lifespan (finite or infinite): the change is handed to the RTPS writer when "
+        "timestamp + lifespan > now or lifespan is infinite, and is never handed over when timestamp + lifespan < now; (2) "
+        "DcpsDomainParticipant::remove_stale_writer_samples(now) on a real participant whose RtpsStatefulWriter history holds two "
+        "changes with symbolic source timestamps (or none): afterwards every change whose timestamp + lifespan lies in the past is "
+        "gone from `changes` - the one list first transmissions, ACKNACK repairs (write_message_reliable) and late-joiner history are "
+        "all served from - every unexpired or untimestamped change is still there, unmodified and in order, and nothing else is; "
+        "(3) time_until_stale_writer_sample(now) equals the minimum over the timestamped changes of (timestamp + lifespan - now), "
+        "i.e. the worker (C31) is woken no later than the first expiry. At exact equality (timestamp + lifespan == now) either "
+        "behaviour is accepted (the code treats it as expired at both places; the property says 'lies in the past')."),
+    bounds="one writer; expired-at-write: one call, no instance registered before; history harnesses: exactly 2 changes (quick) / "
+           "3 changes for time_until (thorough), one publisher, one writer; time values on the grid seconds 0..=7 x nanoseconds "
+           "{0, 1, 5*10^8, 10^9-1}; per-loop bound 3 on Vec::retain's loops, unwinding assertions on",
+    outside="samples already delivered into a reader cache (dust-dds has no reader-side expiry mechanism: a sample received before its "
+            "expiry stays readable afterwards - not checked, stated); datagrams already handed to the transport; that the worker calls "
+            "remove_stale_writer_samples in time (C31 decides the sleep bound from time_until_stale_writer_sample); histories of more "
+            "than 2 changes for the removal step (3 changes with the retain loops bounded by 5 took > 14 min / 38 M clauses; "
+            "Vec::retain treats every element alike); writers with several publishers/writers (list lengths > 1); the serialize / "
+            "key-extraction prefix of the user-level write (DynamicData); full-range nanoseconds (C14)",
+    level_text="Bounded model checking (Kani/CBMC) of the real expired-at-write branch on a writer entity and of the real "
+               "remove_stale_writer_samples / time_until_stale_writer_sample on a real DcpsDomainParticipant, for every point of a small "
+               "time grid and a 2-change writer history; not a proof for all history lengths or time values.",
+    level_note="trusted: Kani/CBMC; the direct installation of publisher/writer into the participant (support_part2.rs); the recording "
+               "RtpsWriter of the entity-level harness; oracle arithmetic uses the crate's own Time + Duration (C14)",
+    technique="Kani/CBMC symbolic execution of DataWriterEntity::write_w_timestamp, DcpsDomainParticipant::remove_stale_writer_samples "
+              "and time_until_stale_writer_sample (pattern S on the entity, pattern A on a real participant)",
+    assumptions=[_DIRECT, _GRID, _ENV,
+                 "writer history filled through RtpsStatefulWriter::changes_mut().push (what add_change stores when no reader is matched)"],
+    timeout={"quick": 900, "thorough": 1500},
+    mem_gb=12,
+    cbmc_args=_CBMC,
+    unwind_patterns=_UNWIND,
+)
+
+prop(
+    "C28",
+    ready=True,
+    level="other",
+    explanation=(
+        "Reduced scope (DESIGN.md): of the writer instance-management contract only the parts that are reachable without traversing a "
+        "DynamicData value are decided. (1) Entity level: DataWriterEntity::register_w_timestamp / unregister_w_timestamp / "
+        "dispose_w_timestamp on a not-enabled writer (symbolic bookkeeping state) return NotEnabled, hand nothing to the RTPS writer "
+        "and change nothing. (2) Participant level, real DcpsDomainParticipant: register_instance, unregister_instance, "
+        "dispose_w_timestamp, lookup_instance and write_w_timestamp addressed to an existing, not-enabled writer fail with NotEnabled "
+        "(the write through its reply oneshot), send no datagram, store nothing and leave no write pending. (3) The same five "
+        "operations addressed to a (publisher, writer) handle pair of which at least one does not exist (both handles symbolic 16-byte "
+        "values) fail with AlreadyDeleted and leave the existing writer untouched. 'Before touching its argument' is a checked "
+        "obligation: the two entry points through which these operations read their sample (KeyHolderData::from_dynamic_data, "
+        "data_writer_entity::serialize) are replaced by functions that fail the proof when reached."),
+    bounds="one topic, one publisher, one writer; sample argument = empty DynamicData of a keyless type; handles: any 16 bytes; "
+           "timestamps on the small grid; entity-level writer with 0 or 1 registered instance and any sequence counter",
+    outside="everything behind key extraction from a DynamicData value: register_instance idempotence and 'returns the handle of the "
+            "sample's key', lookup_instance for registered / unregistered instances, BadParameter for dispose/unregister of an unknown "
+            "instance, IllegalOperation for keyless types (KeyHolderData::from_dynamic_data + serialize_final_without_header run the "
+            "XTypes serializer over DynamicData: no answer in 400-900 s even for 1-member types, DESIGN.md P-i); the user-facing "
+            "DataWriterAsync wrappers (mail round trip through the worker); operations other than the five listed (get_* status "
+            "reads and listener/QoS setters do not return NotEnabled on a disabled writer, which DDS 1.4 2.2.2.1.1.7 allows)",
+    level_text="Bounded model checking (Kani/CBMC) of the NotEnabled / AlreadyDeleted paths of the writer's instance-management and "
+               "write operations on a real DataWriterEntity and a real DcpsDomainParticipant; the keyed-instance part of the contract "
+               "is NOT decided (needs DynamicData).",
+    level_note="trusted: Kani/CBMC; direct installation of topic/publisher/writer (support_part2.rs); the two failing stubs make "
+               "'argument untouched' an obligation rather than an assumption; Waker::wake/wake_by_ref/drop are stubbed by the no-ops of "
+               "Waker::noop(), the only waker the harness creates",
+    technique="Kani/CBMC symbolic execution of DataWriterEntity::{register,unregister,dispose}_w_timestamp and of "
+              "DcpsDomainParticipant::{register_instance, unregister_instance, dispose_w_timestamp, lookup_instance, write_w_timestamp}",
+    assumptions=[_DIRECT, _ENV],
+    timeout={"quick": 900, "thorough": 1500},
+    mem_gb=12,
+    cbmc_args=_CBMC,
+    unwind_patterns=_UNWIND,
+)
+
+prop(
+    "C27",
+    level="other",
+    explanation=(
+        "NOT CLAIMED. The blocking decision of writer_methods::write_w_timestamp and its retry process_pending_write_samples sit behind "
+        "serialize(dynamic_data) / KeyHolderData::from_dynamic_data (DynamicData: not encodable, DESIGN.md P-i). The reduced obligation "
+        "planned in DESIGN.md - check_pending_writer_sample_timeout(now) on a directly installed PendingWriteSample - was built "
+        "(c27_pending_timeout.rs: c27_timeout_finite / _infinite, parked) and does not run: the function drops the PendingWriteSample "
+        "after sending Timeout, i.e. runs the drop glue of DynamicData { BTreeMap<u32, DataStorage> }; the (empty) map is read back from "
+        "a heap-stored writer, so its emptiness is unknown to symbolic execution, which explores BTreeMap's dying iterator and the "
+        "mutually recursive DataStorage/DynamicData drop glue: > 400 s of symbolic execution alone with bound 1 on every btree/drop-glue "
+        "loop, > 600 s with bound 3. Drop glue / generic trait impls cannot be stubbed in Kani 0.68 and the drop is inside the code under "
+        "test. What does run: time_until_pending_writer_sample_timeout(now) == max(0, expiration - now) for a blocked write with finite "
+        "max_blocking_time, None for an infinite one or when nothing is blocked (3 harnesses, 20 s each) - too thin to claim C27."),
+    bounds="time_until_pending_writer_sample_timeout only: one writer with one blocked write; time grid as C29",
+    outside="the whole property statement (blocking instead of dropping, Timeout without storing, depth bound)",
+    level_text="not claimed", level_note="not claimed",
+    technique="Kani/CBMC (attempted)", assumptions=[_DIRECT, _GRID, _ENV],
+    timeout={"quick": 600, "thorough": 900},
+    mem_gb=12,
+    cbmc_args=_CBMC,
+    unwind_patterns=_UNWIND,
+)
+
+prop(
+    "C30",
+    level="other",
+    explanation=(
+        "NOT CLAIMED. check_missed_writer_deadline / check_missed_reader_deadline are monolithic methods of DcpsDomainParticipant: three "
+        "nested loops (writers of a publisher, instances of a writer, missed handles) around a listener-dispatch body (async handle "
+        "construction, topic lookup by name, three mask tests / mpsc sends, status condition update). The entity lists live in heap "
+        "buffers whose headers sit inside other heap-allocated entities (> 64 bytes: not field-sensitive in CBMC), so their lengths are "
+        "never constant-folded and every loop runs one extra pass over unconstrained memory; the passes multiply around the body. "
+        "Measured on the cheapest variant (c30_onecall.rs: ONE call, one writer, one instance, MpscSender::send / "
+        "DcpsStatusCondition::add_communication_state / String::clone replaced by recorders): symbolic execution 105 s, then the SAT "
+        "encoding runs out of 12 GB (CaDiCaL and MiniSat, also without pointer checks); with the real mpsc channel and status condition: "
+        "no answer in 900 s; re-run with Kani's assertion reachability checks switched off (the framework default since): 237 s, MiniSat out of memory at 12 GB. The same binary with the loops cut after the real elements (unsound: unwinding assertions fail) needs "
+        "27 s / < 2 GB, i.e. the real code is cheap and the extra passes are the whole cost; they cannot be avoided: Iterator::next of "
+        "slice/vec iterators is a generic trait impl (not stubbable in Kani 0.68), --max-field-sensitivity-array-size 256..2048 stalls "
+        "symbolic execution (> 400 s without reaching the first loop). The two-call harnesses that state the property "
+        "(c30_deadline.rs, incl. the __known/__rest pair for finding candidate KF-C30-1) are kept parked."),
+    bounds="-", outside="the whole property statement",
+    level_text="not claimed", level_note="not claimed",
+    technique="Kani/CBMC (attempted)", assumptions=[_DIRECT, _GRID, _ENV],
+    timeout={"quick": 600, "thorough": 900},
+    mem_gb=12,
+    cbmc_args=_CBMC,
+    unwind_patterns=_UNWIND,
+)
+
+prop(
+    "C33",
+    level="other",
+    explanation=(
+        "NOT CLAIMED. Every status-raising site that is reachable without XTypes (requested/offered deadline missed in "
+        "check_missed_*_deadline; publication/subscription matched on the removal paths of discovery_methods.rs) has the same shape as "
+        "C30's functions: nested loops over heap-stored entity lists around the three-level listener chain; the sample-rejected / "
+        "data-available sites (communication_methods.rs) are only reached through add_user_defined_cache_change behind the XTypes "
+        "deserializer. The measured cost of ONE call of the simplest such function (one entity per list, recorder stubs for the channel "
+        "and the status condition) is 105 s of symbolic execution followed by an out-of-memory SAT encoding at 12 GB (see C30); three "
+        "real mpsc channels plus three symbolic masks only add to that. No smaller unit contains the precedence chain (it is inline in "
+        "the participant methods), and re-implementing it in a harness is not checking the real code."),
+    bounds="-", outside="the whole property statement",
+    level_text="not claimed", level_note="not claimed",
+    technique="Kani/CBMC (attempted)", assumptions=[],
+    timeout={"quick": 600, "thorough": 900},
+    mem_gb=12,
+    cbmc_args=_CBMC,
+    unwind_patterns=_UNWIND,
+)
